@@ -2,10 +2,14 @@
 From GC Require Import Base Cli.
 From GC.Gen Require Import CliFacts.
 
+(* refused by the command-line parser | the pair the server received (name lower-cased by HTTP) |
+   accepted by the parser, nothing observable on the wire *)
+Inductive hobs := HRefused | HSent (name value : list N) | HUnobserved.
+
 Inductive case :=
 (* one --header value, as code points; observation: refused by the command line (before any request),
    or the (name, value) pair the mock server received *)
-| CHeader (input : list N) (obs : option (list N * list N))
+| CHeader (input : list N) (obs : hobs)
 (* one run: flags, server behaviour, whether an output file was asked for and pre-existed *)
 | CRun (is_one_of specify_by_url : bool) (behaviour : string) (with_output pre_existing : bool)
        (exit_ok : bool)
@@ -15,18 +19,33 @@ Inductive case :=
        (output_json_equal : option bool)     (* written file / stdout parses to the served JSON *)
        (old_file_untouched : bool).
 
-Definition header_eqb (a b : option (list N * list N)) : bool :=
-  opt_eqb (fun x y => list_eqb N.eqb (fst x) (fst y) && list_eqb N.eqb (snd x) (snd y)) a b.
-
 Definition expected_operation (is_one_of specify_by_url : bool) : option string :=
   match nth_error introspection_docs (chosen_document is_one_of specify_by_url) with
   | Some (_, _, [op]) => Some op
   | _ => None
   end.
 
+Definition lower_n (l : list N) : list N := map (fun c => if (65 <=? c) && (c <=? 90) then c + 32 else c)%N l.
+(* RFC 7230 token characters: what the HTTP stack accepts in a field name *)
+Definition is_tchar (c : N) : bool :=
+  ((48 <=? c) && (c <=? 57) || (65 <=? c) && (c <=? 90) || (97 <=? c) && (c <=? 122) ||
+   existsb (N.eqb c) [33; 35; 36; 37; 38; 39; 42; 43; 45; 46; 94; 95; 96; 124; 126])%N.
+(* bytes the HTTP stack refuses in a field value *)
+Definition bad_vchar (c : N) : bool := ((c <? 32) && negb (c =? 9) || (c =? 127))%N.
+Definition unobservable (name value : list N) : bool :=
+  negb (forallb is_tchar name) || existsb bad_vchar value || match value with [] => true | _ => false end.
+
+Definition obs_matches (expected : option (list N * list N)) (o : hobs) : bool :=
+  match expected, o with
+  | None, HRefused => true
+  | Some (n, v), HSent n' v' => list_eqb N.eqb (lower_n n) n' && list_eqb N.eqb v v'
+  | Some (n, v), HUnobserved => unobservable n v
+  | _, _ => false
+  end.
+
 Definition corr (c : case) : bool :=
   match c with
-  | CHeader i o => header_eqb (parse_header i) o
+  | CHeader i o => obs_matches (parse_header i) o
   | CRun i s beh _ _ ok op _ _ _ _ _ =>
       Bool.eqb ok (String.eqb beh "200-json") &&
       (match op with Some o => opt_eqb String.eqb (Some o) (expected_operation i s) | None => true end)
@@ -38,12 +57,12 @@ Definition prop_header (c : case) : bool :=
   match c with
   | CHeader i o =>
       match split_colon i [] with
-      | None => match o with None => true | Some _ => false end
+      | None => obs_matches None o
       | Some (n, v) =>
           let name := trim_n n in
           if match name with [] => true | _ => existsb is_ws name end
-          then match o with None => true | Some _ => false end
-          else header_eqb o (Some (name, trim_n v))
+          then obs_matches None o
+          else obs_matches (Some (name, trim_n v)) o
       end
   | _ => true
   end.
